@@ -15,7 +15,10 @@ for f in sorted(glob.glob(os.path.join(os.path.dirname(os.path.abspath(__file__)
         rows.append(f'| {sid} | {out} | {by[:150]} |')
     else:
         out = 'missed' if res.startswith('missed') else res[:60]
-        rows.append(f'| {sid} | {out} | {(m.get("why_missed") or "")[:260]} |')
+        why = (m.get("why_missed") or "")[:260]
+        if m.get('thorough_tier'):
+            why += ' — thorough tier: ' + m['thorough_tier'][:200]
+        rows.append(f'| {sid} | {out} | {why} |')
 print(f'<!-- {caught} of {n} caught -->')
 print('| seeded change | outcome | caught by / why missed |')
 print('|---|---|---|')
